@@ -177,7 +177,8 @@ Lemma now_loop_spec t : forall cs k,
   | Failed w => forallb (valid_at t) cs = false /\
       exists j, forallb (valid_at t) (firstn j cs) = true /\
         ((w = WNowBefore (k + N.of_nat j) /\ nth_c cs j (fun c => t <? nb c) = true) \/
-         (w = WNowAfter (k + N.of_nat j) /\ nth_c cs j (fun c => na c <? t) = true))
+         (w = WNowAfter (k + N.of_nat j) /\ nth_c cs j (fun c => na c <? t) = true /\
+            nth_c cs j (fun c => nb c <=? t) = true))
   end.
 Proof.
   induction cs as [|c cs IH]; intros k; [reflexivity|].
@@ -193,7 +194,7 @@ Proof.
       { unfold valid_at. assert (t <=? na c = false) as -> by lia. apply andb_false_r. }
       rewrite V. cbn [andb]. split; [reflexivity|].
       exists O. rewrite N.add_0_r. split; [reflexivity|]. right. split; [reflexivity|].
-      unfold nth_c; cbn. exact E2.
+      unfold nth_c; cbn. split; [exact E2 | lia].
     + assert (V : valid_at t c = true).
       { unfold valid_at. assert (nb c <=? t = true) as -> by lia.
         assert (t <=? na c = true) as -> by lia. reflexivity. }
@@ -232,4 +233,641 @@ Proof.
     rewrite V. cbn [andb]. split; [reflexivity|].
     exists O. rewrite N.add_0_r. split; [reflexivity|]. left.
     split; [reflexivity|]. unfold nth_c; cbn. lia.
+Qed.
+
+(* ================= revocationFinalResult on the TSA chain ================= *)
+
+Definition okp (x : rres * N) := is_ok (fst x).
+Definition revp (x : rres * N) := is_revoked (fst x).
+Definition fr (l : list (rres * N)) : racc := fold_right (fun x a => rstep a x) racc0 l.
+
+Lemma loop_is_fr l : fold_left rstep (rev l) racc0 = fr l.
+Proof. unfold fr. rewrite <- (rev_involutive l) at 2. now rewrite fold_left_rev_right. Qed.
+
+Lemma fr_cons x l : fr (x :: l) = rstep (fr l) x.
+Proof. reflexivity. Qed.
+
+Lemma ok_not_rev r : is_ok r = true -> is_revoked r = false.
+Proof. destruct r; cbn; congruence. Qed.
+
+Lemma fr_numOK l : a_numOK (fr l) = List.length (filter okp l).
+Proof.
+  induction l as [|[r s] l IH]; [reflexivity|].
+  rewrite fr_cons. unfold rstep. cbn [filter]. change (okp (r, s)) with (is_ok r).
+  destruct (is_ok r); cbn [a_numOK List.length]; [now rewrite IH|].
+  destruct (is_revoked r); cbn [a_numOK]; exact IH.
+Qed.
+
+Lemma fr_revFound l : a_revFound (fr l) = existsb revp l.
+Proof.
+  induction l as [|[r s] l IH]; [reflexivity|].
+  rewrite fr_cons. unfold rstep. cbn [existsb]. change (revp (r, s)) with (is_revoked r).
+  destruct (is_ok r) eqn:E; cbn [a_revFound].
+  - now rewrite (ok_not_rev _ E), IH.
+  - destruct (is_revoked r); cbn [a_revFound]; [reflexivity | exact IH].
+Qed.
+
+Lemma fr_revSubj l : a_revFound (fr l) = true ->
+  exists r, In (r, a_revSubj (fr l)) l /\ is_revoked r = true.
+Proof.
+  induction l as [|[r s] l IH]; [cbn; discriminate|].
+  rewrite fr_cons. unfold rstep.
+  destruct (is_ok r) eqn:E; cbn [a_revFound a_revSubj].
+  - intros H. destruct (IH H) as (r' & Hin & Hr). exists r'. split; [now right | exact Hr].
+  - destruct (is_revoked r) eqn:E2; cbn [a_revFound a_revSubj].
+    + intros _. exists r. split; [now left | exact E2].
+    + intros H. destruct (IH H) as (r' & Hin & Hr). exists r'. split; [now right | exact Hr].
+Qed.
+
+Lemma fr_prob l : forallb okp l = false ->
+  In (a_final (fr l), a_prob (fr l)) l /\ is_ok (a_final (fr l)) = false.
+Proof.
+  induction l as [|[r s] l IH]; [cbn; discriminate|].
+  rewrite fr_cons. unfold rstep. cbn [forallb]. change (okp (r, s)) with (is_ok r).
+  destruct (is_ok r) eqn:E; cbn [a_final a_prob andb].
+  - intros H. destruct (IH H) as [Hin Hn]. split; [now right | exact Hn].
+  - intros _. destruct (is_revoked r); cbn [a_final a_prob]; (split; [now left | exact E]).
+Qed.
+
+Lemma filter_len_le {A} (p : A -> bool) l : (List.length (filter p l) <= List.length l)%nat.
+Proof. induction l as [|x l IH]; cbn; [lia|]. destruct (p x); cbn; lia. Qed.
+
+Lemma filter_len_all {A} (p : A -> bool) l :
+  Nat.eqb (List.length (filter p l)) (List.length l) = forallb p l.
+Proof.
+  induction l as [|x l IH]; [reflexivity|]. cbn [filter forallb].
+  destruct (p x); cbn [List.length andb].
+  - exact IH.
+  - apply Nat.eqb_neq. pose proof (filter_len_le p l). cbn. lia.
+Qed.
+
+Lemma index_from_length {A} (l : list A) : forall k, List.length (index_from k l) = List.length l.
+Proof. induction l as [|x l IH]; intros k; cbn; [reflexivity | now rewrite IH]. Qed.
+
+Lemma index_from_okp rs : forall k, forallb okp (index_from k rs) = forallb is_ok rs.
+Proof. induction rs as [|r rs IH]; intros k; cbn; [reflexivity|]. unfold okp at 1; cbn [fst]. now rewrite IH. Qed.
+
+Lemma index_from_revp rs : forall k, existsb revp (index_from k rs) = existsb is_revoked rs.
+Proof. induction rs as [|r rs IH]; intros k; cbn; [reflexivity|]. unfold revp at 1; cbn [fst]. now rewrite IH. Qed.
+
+Lemma index_from_In {A} (l : list A) : forall k x p, In (x, p) (index_from k l) ->
+  exists j, p = (k + N.of_nat j)%N /\ nth_error l j = Some x.
+Proof.
+  induction l as [|y l IH]; intros k x p; cbn; [tauto|].
+  intros [E|Hin].
+  - inversion E; subst. exists O. split; [lia | reflexivity].
+  - destruct (IH _ _ _ Hin) as (j & -> & Hj). exists (S j). split; [lia | exact Hj].
+Qed.
+
+Lemma rres_at_nth rs j p : rres_at (0 + N.of_nat j) (VRes rs) p =
+  match nth_error rs j with Some r => p r | None => false end.
+Proof. unfold rres_at. now rewrite N.add_0_l, Nat2N.id. Qed.
+
+(* the verdict of the aggregator *)
+Lemma rev_check_spec v :
+  match rev_check v with
+  | None => rev_ok v = true
+  | Some w => rev_ok v = false /\
+      match w with
+      | WRevErr => v = VErr
+      | WRevoked p => rres_at p v is_revoked = true
+      | WRevUnknown p => rres_at p v (fun r => negb (is_ok r)) = true /\ rres_at p v is_revoked = false
+      | _ => False
+      end
+  end.
+Proof.
+  destruct v as [|rs]; [cbn; auto|].
+  unfold rev_check, final_result. rewrite loop_is_fr.
+  rewrite fr_numOK, <- (index_from_length rs 0%N), filter_len_all, index_from_okp.
+  cbn [rev_ok].
+  destruct (forallb is_ok rs) eqn:ALL.
+  - destruct (a_revFound (fr (index_from 0%N rs))); reflexivity.
+  - assert (ALL' : forallb okp (index_from 0%N rs) = false) by now rewrite index_from_okp.
+    destruct (a_revFound (fr (index_from 0%N rs))) eqn:RF.
+    + destruct (fr_revSubj _ RF) as (r & Hin & Hr). split; [reflexivity|].
+      apply index_from_In in Hin. destruct Hin as (j & Hp & Hj).
+      rewrite Hp, rres_at_nth, Hj. exact Hr.
+    + destruct (fr_prob _ ALL') as [Hin Hn].
+      apply index_from_In in Hin. destruct Hin as (j & Hp & Hj).
+      assert (NR : is_revoked (a_final (fr (index_from 0%N rs))) = false).
+      { rewrite fr_revFound, index_from_revp in RF.
+        destruct (is_revoked (a_final (fr (index_from 0%N rs)))) eqn:E; [|reflexivity].
+        apply nth_error_In in Hj.
+        assert (existsb is_revoked rs = true) by (apply existsb_exists; eauto). congruence. }
+      destruct (a_final (fr (index_from 0%N rs))) eqn:F; cbn in Hn, NR; try discriminate;
+        (split; [reflexivity|]); rewrite Hp, !rres_at_nth, Hj; cbn; auto.
+Qed.
+
+(* ================= verifyTimestamp / verifyAuthenticTimestamp ================= *)
+
+Lemma nth_c_cert_at cs j p : nth_c cs j p = cert_at (0 + N.of_nat j) cs p.
+Proof. unfold nth_c, cert_at. now rewrite N.add_0_l, Nat2N.id. Qed.
+
+Lemma perform_applies i : wf i = true ->
+  tsa_in_policy (i_stores i) = Some (existsb is_tsa_store (i_stores i)) /\
+  perform_ts (i_now i) (i_chain i) (i_opt i) (existsb is_tsa_store (i_stores i)) = applies i.
+Proof.
+  intros W. split; [now apply tsa_in_policy_wf|]. reflexivity.
+Qed.
+
+(* the countersignature pipeline, when timestamp verification applies *)
+Lemma countersig_spec i : wf i = true -> i_scheme i = X509 -> applies i = true ->
+  match countersig i with
+  | Passed => token_ok i = true
+  | Failed w => token_ok i = false /\ why_ok i w = true
+  end.
+Proof.
+  intros W S A. unfold countersig, token_ok.
+  destruct (k_present (i_tok i)) eqn:F1; cbn [negb andb];
+    [|split; [reflexivity|]; unfold why_ok; now rewrite S, A, F1].
+  destruct (k_parses (i_tok i)) eqn:F2; cbn [negb andb];
+    [|split; [reflexivity|]; unfold why_ok; now rewrite S, A, F2].
+  destruct (k_info (i_tok i)) eqn:F3; cbn [negb andb];
+    [|split; [reflexivity|]; unfold why_ok; now rewrite S, A, F3].
+  destruct (k_imprint (i_tok i)) eqn:F4; cbn [negb andb];
+    [|split; [reflexivity|]; unfold why_ok; now rewrite S, A, F4].
+  rewrite (load_tsa_top _ W).
+  destruct (all_load i) eqn:F5; cbn [andb];
+    [|split; [reflexivity|]; unfold why_ok; now rewrite S, A, F5].
+  destruct (some_root i) eqn:F6; cbn [andb];
+    [|split; [reflexivity|]; unfold why_ok; now rewrite S, A, F6].
+  destruct (k_verify (i_tok i)) eqn:F7; cbn [negb andb];
+    [|split; [reflexivity|]; unfold why_ok; now rewrite S, A, F7].
+  destruct (k_rules (i_tok i)) eqn:F8; cbn [negb andb];
+    [|split; [reflexivity|]; unfold why_ok; now rewrite S, A, F8].
+  pose proof (ts_loop_spec (k_gen (i_tok i) - k_acc (i_tok i)) (k_gen (i_tok i) + k_acc (i_tok i))
+                (i_chain i) 0%N) as TS.
+  destruct (ts_loop _ _ (i_chain i) 0%N) as [w|].
+  - destruct TS as [F (j & _ & [[-> Hj]|[-> Hj]])]; rewrite F; cbn [andb];
+      (split; [reflexivity|]); unfold why_ok; rewrite S, A; cbn [andb];
+      rewrite <- nth_c_cert_at; exact Hj.
+  - rewrite TS. cbn [andb].
+    pose proof (rev_check_spec (k_rev (i_tok i))) as RV.
+    destruct (rev_check (k_rev (i_tok i))) as [w|]; [|exact RV].
+    destruct RV as [F Hw]. split; [exact F|].
+    unfold why_ok. rewrite S, A. cbn [andb].
+    destruct w; try contradiction.
+    + now rewrite Hw.
+    + exact Hw.
+    + destruct Hw as [H1 H2]. now rewrite H1, H2.
+Qed.
+
+(* the whole validation: passes exactly when the declarative reading says so,
+   and a failure names a fact that is indeed violated *)
+Lemma vat_spec i : wf i = true ->
+  match verify_authentic_timestamp i with
+  | Passed => expected_pass i = true
+  | Failed w => expected_pass i = false /\ why_ok i w = true
+  end.
+Proof.
+  intros W. unfold verify_authentic_timestamp, expected_pass.
+  destruct (i_scheme i) eqn:S.
+  - unfold verify_timestamp. destruct (perform_applies i W) as [-> ->].
+    destruct (applies i) eqn:A.
+    + now apply countersig_spec.
+    + pose proof (now_loop_spec (i_now i) (i_chain i) 0%N) as NL.
+      destruct (now_loop (i_now i) (i_chain i) 0%N) as [|w]; [exact NL|].
+      destruct NL as [F (j & _ & [[-> Hj]|[-> [Hj _]]])]; (split; [exact F|]);
+        unfold why_ok; rewrite S, A; cbn [negb andb]; rewrite <- nth_c_cert_at; exact Hj.
+  - pose proof (sa_loop_spec (i_sigtime i) (i_chain i) 0%N) as SL.
+    destruct (sa_loop (i_sigtime i) (i_chain i) 0%N) as [|w]; [exact SL|].
+    destruct SL as [F (j & -> & Hj & _)]. split; [exact F|].
+    unfold why_ok. rewrite S. rewrite <- nth_c_cert_at. exact Hj.
+Qed.
+
+Lemma expiry_passes_eq i : verify_expiry (i_now i) (i_expiry i) = expiry_passes i.
+Proof. unfold verify_expiry, expiry_passes. destruct (i_expiry i) as [t|]; [|reflexivity]. lia. Qed.
+
+Theorem model_spec_ok : forall i, wf i = true -> spec_ok i (model i) = true.
+Proof.
+  intros i W. unfold model, spec_ok. rewrite expiry_passes_eq.
+  destruct (enforced (i_aexp i) && negb (expiry_passes i)) eqn:E.
+  - cbn [o_expiry o_ts o_rejected].
+    apply andb_true_iff in E. destruct E as [E1 E2]. rewrite E1.
+    destruct (expiry_passes i); [discriminate|]. reflexivity.
+  - cbn [o_expiry o_ts o_rejected]. rewrite eqb_reflx, E. cbn [andb].
+    pose proof (vat_spec i W) as V.
+    destruct (verify_authentic_timestamp i) as [|w]; cbn [is_failed negb].
+    + rewrite V. cbn. now rewrite andb_false_r.
+    + destruct V as [-> ->]. cbn [Bool.eqb andb]. now rewrite eqb_reflx.
+Qed.
+
+(* ================= from booleans to propositions ================= *)
+
+Lemma valid_at_iff t c : valid_at t c = true <-> Valid_at t c.
+Proof. unfold valid_at, Valid_at. rewrite andb_true_iff. lia. Qed.
+
+Lemma window_ok_iff lo hi c : window_ok lo hi c = true <-> Inside lo hi c.
+Proof. unfold window_ok, Inside. rewrite andb_true_iff. lia. Qed.
+
+Lemma forallb_Forall {A} (p : A -> bool) (P : A -> Prop) l :
+  (forall x, p x = true <-> P x) -> (forallb p l = true <-> Forall P l).
+Proof.
+  intros H. rewrite forallb_forall, Forall_forall.
+  split; intros F x Hin; apply H; now apply F.
+Qed.
+
+Lemma is_tsa_store_iff s : is_tsa_store s = true <-> exists name, s = ("tsa:" ++ name)%string.
+Proof.
+  split; [apply has_prefix_tsa|]. intros [name ->]. unfold is_tsa_store. cbn [append has_prefix].
+  now rewrite !Ascii.eqb_refl.
+Qed.
+
+Lemma lists_tsa_iff stores : existsb is_tsa_store stores = true <-> Lists_tsa stores.
+Proof.
+  rewrite existsb_exists. unfold Lists_tsa. split.
+  - intros (s & Hin & T). apply is_tsa_store_iff in T. destruct T as [name ->]. now exists name.
+  - intros [name Hin]. exists ("tsa:" ++ name)%string. split; [exact Hin|].
+    apply is_tsa_store_iff. now exists name.
+Qed.
+
+Lemma expired_iff i : existsb (fun c => na c <? i_now i) (i_chain i) = true <-> Expired_now i.
+Proof.
+  rewrite existsb_exists. unfold Expired_now.
+  split; intros (c & Hin & H); exists c; (split; [exact Hin|]); lia.
+Qed.
+
+Lemma applies_iff i : applies i = true <-> Applies i.
+Proof.
+  unfold applies, Applies. rewrite andb_true_iff, lists_tsa_iff.
+  destruct (i_opt i); try rewrite expired_iff; split; intros [H1 H2]; (split; [exact H1|]);
+    try reflexivity; try discriminate; auto.
+Qed.
+
+Lemma applies_dec i : Applies i \/ ~ Applies i.
+Proof.
+  destruct (applies i) eqn:A; [left; now apply applies_iff|].
+  right. intros H. apply applies_iff in H. congruence.
+Qed.
+
+Lemma all_load_iff i : all_load i = true <->
+  forall name, In ("tsa:" ++ name)%string (i_stores i) -> lookup_db name (i_tsadb i) <> SErr.
+Proof.
+  unfold all_load. rewrite forallb_forall. split.
+  - intros H name Hin. specialize (H _ Hin).
+    assert (T : is_tsa_store ("tsa:" ++ name) = true) by (apply is_tsa_store_iff; now exists name).
+    rewrite T in H. cbn [negb orb] in H. unfold store_loads in H.
+    change (drop 4 ("tsa:" ++ name)) with name in H.
+    destruct (lookup_db name (i_tsadb i)); congruence.
+  - intros H s Hin. destruct (is_tsa_store s) eqn:T; [|reflexivity]. cbn [negb orb].
+    apply is_tsa_store_iff in T. destruct T as [name ->]. specialize (H _ Hin).
+    unfold store_loads. change (drop 4 ("tsa:" ++ name)) with name.
+    destruct (lookup_db name (i_tsadb i)); congruence.
+Qed.
+
+Lemma some_root_iff i : some_root i = true <->
+  exists name, In ("tsa:" ++ name)%string (i_stores i) /\ lookup_db name (i_tsadb i) = SCerts.
+Proof.
+  unfold some_root. rewrite existsb_exists. split.
+  - intros (s & Hin & H). apply andb_true_iff in H. destruct H as [T H].
+    apply is_tsa_store_iff in T. destruct T as [name ->]. exists name. split; [exact Hin|].
+    unfold store_has in H. change (drop 4 ("tsa:" ++ name)) with name in H.
+    destruct (lookup_db name (i_tsadb i)); congruence.
+  - intros (name & Hin & H). exists ("tsa:" ++ name)%string. split; [exact Hin|].
+    apply andb_true_iff. split; [apply is_tsa_store_iff; now exists name|].
+    unfold store_has. change (drop 4 ("tsa:" ++ name)) with name. now rewrite H.
+Qed.
+
+Lemma is_ok_iff r : is_ok r = true <-> (r = ROK \/ r = RNonRevokable).
+Proof. destruct r; cbn; split; intros H; try discriminate; auto; destruct H; discriminate. Qed.
+
+Lemma rev_ok_iff v : rev_ok v = true <->
+  exists rs, v = VRes rs /\ Forall (fun r => r = ROK \/ r = RNonRevokable) rs.
+Proof.
+  destruct v as [|rs]; cbn [rev_ok].
+  - split; [discriminate|]. intros (rs & H & _). discriminate.
+  - rewrite (forallb_Forall is_ok _ rs is_ok_iff). split.
+    + intros H. now exists rs.
+    + intros (rs' & E & H). inversion E; subst. exact H.
+Qed.
+
+Lemma token_ok_iff i : token_ok i = true <-> Token_ok i.
+Proof.
+  unfold token_ok, Token_ok. rewrite !andb_true_iff, all_load_iff, some_root_iff, rev_ok_iff.
+  rewrite (forallb_Forall _ _ (i_chain i) (window_ok_iff _ _)). tauto.
+Qed.
+
+(* ================= the theorems of the property ================= *)
+
+(* ---- expiry ---- *)
+Lemma o_expiry_model i : o_expiry (model i) = Some (verify_expiry (i_now i) (i_expiry i)).
+Proof.
+  unfold model. destruct (enforced (i_aexp i) && negb (verify_expiry (i_now i) (i_expiry i))) eqn:E;
+    cbn [o_expiry]; [|reflexivity].
+  apply andb_true_iff in E. destruct E as [_ E].
+  destruct (verify_expiry (i_now i) (i_expiry i)); [discriminate | reflexivity].
+Qed.
+
+Theorem expiry_fails : forall i e, i_expiry i = Some e -> e <= i_now i ->
+  o_expiry (model i) = Some false.
+Proof.
+  intros i e H L. rewrite o_expiry_model, H. cbn. f_equal. lia.
+Qed.
+
+Theorem expiry_passes_thm : forall i,
+  (i_expiry i = None \/ exists e, i_expiry i = Some e /\ i_now i < e) ->
+  o_expiry (model i) = Some true.
+Proof.
+  intros i [H|(e & H & L)]; rewrite o_expiry_model, H; cbn; [reflexivity|]. f_equal. lia.
+Qed.
+
+Theorem expiry_enforced_stops : forall i e, i_aexp i = Enforce -> i_expiry i = Some e -> e <= i_now i ->
+  model i = mk_obs (Some false) None true.
+Proof.
+  intros i e A H L. unfold model. rewrite A, H. cbn.
+  assert (i_now i <? e = false) as -> by lia. reflexivity.
+Qed.
+
+Theorem expiry_not_stopping : forall i,
+  (i_aexp i = Log \/ o_expiry (model i) = Some true) ->
+  o_ts (model i) = Some (verify_authentic_timestamp i).
+Proof.
+  intros i H. unfold model.
+  destruct (enforced (i_aexp i) && negb (verify_expiry (i_now i) (i_expiry i))) eqn:E; [|reflexivity].
+  exfalso. apply andb_true_iff in E. destruct E as [E1 E2]. destruct H as [H|H].
+  - rewrite H in E1. discriminate.
+  - rewrite o_expiry_model in H. inversion H as [H']. rewrite H' in E2. discriminate.
+Qed.
+
+Theorem expiry_clock : forall i i', i_now i = i_now i' -> i_expiry i = i_expiry i' ->
+  o_expiry (model i) = o_expiry (model i').
+Proof. intros i i' H1 H2. now rewrite !o_expiry_model, H1, H2. Qed.
+
+(* ---- signingAuthority ---- *)
+Theorem sa_iff : forall i, i_scheme i = SigningAuthority ->
+  (verify_authentic_timestamp i = Passed <-> Forall (Valid_at (i_sigtime i)) (i_chain i)).
+Proof.
+  intros i S. unfold verify_authentic_timestamp. rewrite S.
+  rewrite <- (forallb_Forall _ _ (i_chain i) (valid_at_iff (i_sigtime i))).
+  pose proof (sa_loop_spec (i_sigtime i) (i_chain i) 0%N) as SL.
+  destruct (sa_loop (i_sigtime i) (i_chain i) 0%N) as [|w].
+  - tauto.
+  - destruct SL as [F _]. rewrite F. split; discriminate.
+Qed.
+
+Theorem sa_names : forall i w, i_scheme i = SigningAuthority ->
+  verify_authentic_timestamp i = Failed w ->
+  exists k c, w = WSigTime (N.of_nat k) /\ nth_error (i_chain i) k = Some c /\
+              ~ Valid_at (i_sigtime i) c /\
+              Forall (Valid_at (i_sigtime i)) (firstn k (i_chain i)).
+Proof.
+  intros i w S. unfold verify_authentic_timestamp. rewrite S.
+  pose proof (sa_loop_spec (i_sigtime i) (i_chain i) 0%N) as SL.
+  destruct (sa_loop (i_sigtime i) (i_chain i) 0%N) as [|w']; [discriminate|].
+  intros E; inversion E; subst w'. destruct SL as [_ (j & -> & Hj & Hfirst)].
+  unfold nth_c in Hj. destruct (nth_error (i_chain i) j) as [c|] eqn:Hc; [|discriminate].
+  exists j, c. rewrite N.add_0_l. split; [reflexivity|]. split; [exact Hc|]. split.
+  - intros V. apply valid_at_iff in V. rewrite V in Hj. discriminate.
+  - now apply (forallb_Forall _ _ _ (valid_at_iff (i_sigtime i))).
+Qed.
+
+Theorem sa_clock : forall i i', i_scheme i = SigningAuthority -> i_scheme i' = SigningAuthority ->
+  i_sigtime i = i_sigtime i' -> i_chain i = i_chain i' ->
+  verify_authentic_timestamp i = verify_authentic_timestamp i'.
+Proof.
+  intros i i' S S' T C. unfold verify_authentic_timestamp. now rewrite S, S', T, C.
+Qed.
+
+(* ---- notary.x509 ---- *)
+Lemma vt_unfold i : wf i = true -> i_scheme i = X509 ->
+  verify_authentic_timestamp i =
+    if applies i then countersig i else now_loop (i_now i) (i_chain i) 0%N.
+Proof.
+  intros W S. unfold verify_authentic_timestamp, verify_timestamp. rewrite S.
+  now destruct (perform_applies i W) as [-> ->].
+Qed.
+
+Theorem x509_no_tsa : forall i, wf i = true -> i_scheme i = X509 -> ~ Applies i ->
+  (verify_authentic_timestamp i = Passed <-> Forall (Valid_at (i_now i)) (i_chain i)).
+Proof.
+  intros i W S NA. rewrite (vt_unfold i W S).
+  destruct (applies i) eqn:A; [exfalso; apply NA; now apply applies_iff|].
+  rewrite <- (forallb_Forall _ _ (i_chain i) (valid_at_iff (i_now i))).
+  pose proof (now_loop_spec (i_now i) (i_chain i) 0%N) as NL.
+  destruct (now_loop (i_now i) (i_chain i) 0%N) as [|w].
+  - tauto.
+  - destruct NL as [F _]. rewrite F. split; discriminate.
+Qed.
+
+Theorem x509_no_tsa_names : forall i w, wf i = true -> i_scheme i = X509 -> ~ Applies i ->
+  verify_authentic_timestamp i = Failed w ->
+  exists k c, nth_error (i_chain i) k = Some c /\
+              Forall (Valid_at (i_now i)) (firstn k (i_chain i)) /\
+              ((w = WNowBefore (N.of_nat k) /\ i_now i < nb c) \/
+               (w = WNowAfter (N.of_nat k) /\ nb c <= i_now i /\ na c < i_now i)).
+Proof.
+  intros i w W S NA. rewrite (vt_unfold i W S).
+  destruct (applies i) eqn:A; [exfalso; apply NA; now apply applies_iff|].
+  intros E. pose proof (now_loop_spec (i_now i) (i_chain i) 0%N) as NL. rewrite E in NL.
+  destruct NL as [F (j & Hfirst & Hw)]. rewrite !N.add_0_l in Hw. unfold nth_c in Hw.
+  destruct (nth_error (i_chain i) j) as [c|] eqn:Hc;
+    [|destruct Hw as [[_ H]|[_ [H _]]]; discriminate].
+  exists j, c. split; [exact Hc|]. split.
+  - now apply (forallb_Forall _ _ _ (valid_at_iff (i_now i))).
+  - destruct Hw as [[-> H]|[-> [H1 H2]]]; [left | right]; (split; [reflexivity | lia]).
+Qed.
+
+Theorem x509_tsa : forall i, wf i = true -> i_scheme i = X509 -> Applies i ->
+  (verify_authentic_timestamp i = Passed <-> Token_ok i).
+Proof.
+  intros i W S A. apply applies_iff in A. rewrite (vt_unfold i W S), A.
+  rewrite <- token_ok_iff.
+  pose proof (countersig_spec i W S A) as CS.
+  destruct (countersig i) as [|w].
+  - tauto.
+  - destruct CS as [F _]. rewrite F. split; discriminate.
+Qed.
+
+Theorem fail_closed : forall i, wf i = true -> i_scheme i = X509 -> Applies i -> ~ Token_ok i ->
+  exists w, verify_authentic_timestamp i = Failed w /\ why_ok i w = true.
+Proof.
+  intros i W S A NT. pose proof (vat_spec i W) as V.
+  destruct (verify_authentic_timestamp i) as [|w] eqn:E.
+  - exfalso. apply NT. now apply (x509_tsa i W S A).
+  - exists w. split; [reflexivity | apply V].
+Qed.
+
+(* one lemma per step of the countersignature pipeline: the first missing fact decides *)
+Section Steps.
+  Variable i : input.
+  Hypothesis W : wf i = true.
+  Hypothesis S : i_scheme i = X509.
+  Hypothesis A : Applies i.
+
+  Let unfold_vt : verify_authentic_timestamp i = countersig i.
+  Proof. rewrite (vt_unfold i W S). apply applies_iff in A. now rewrite A. Qed.
+
+  Lemma step_no_token : k_present (i_tok i) = false -> verify_authentic_timestamp i = Failed WNoToken.
+  Proof. intros H. rewrite unfold_vt. unfold countersig. now rewrite H. Qed.
+
+  Lemma step_unparsable : k_present (i_tok i) = true -> k_parses (i_tok i) = false ->
+    verify_authentic_timestamp i = Failed WParse.
+  Proof. intros H1 H2. rewrite unfold_vt. unfold countersig. now rewrite H1, H2. Qed.
+
+  Lemma step_bad_info : k_present (i_tok i) = true -> k_parses (i_tok i) = true ->
+    k_info (i_tok i) = false -> verify_authentic_timestamp i = Failed WInfo.
+  Proof. intros H1 H2 H3. rewrite unfold_vt. unfold countersig. now rewrite H1, H2, H3. Qed.
+
+  Lemma step_wrong_message : k_present (i_tok i) = true -> k_parses (i_tok i) = true ->
+    k_info (i_tok i) = true -> k_imprint (i_tok i) = false ->
+    verify_authentic_timestamp i = Failed WImprint.
+  Proof. intros H1 H2 H3 H4. rewrite unfold_vt. unfold countersig. now rewrite H1, H2, H3, H4. Qed.
+
+  Hypothesis P1 : k_present (i_tok i) = true.
+  Hypothesis P2 : k_parses (i_tok i) = true.
+  Hypothesis P3 : k_info (i_tok i) = true.
+  Hypothesis P4 : k_imprint (i_tok i) = true.
+
+  Lemma step_store_error : all_load i = false -> verify_authentic_timestamp i = Failed WLoad.
+  Proof.
+    intros H. rewrite unfold_vt. unfold countersig.
+    now rewrite P1, P2, P3, P4, (load_tsa_top _ W), H.
+  Qed.
+
+  Lemma step_no_roots : all_load i = true -> some_root i = false ->
+    verify_authentic_timestamp i = Failed WNoRoots.
+  Proof.
+    intros H1 H2. rewrite unfold_vt. unfold countersig.
+    now rewrite P1, P2, P3, P4, (load_tsa_top _ W), H1, H2.
+  Qed.
+
+  Hypothesis P5 : all_load i = true.
+  Hypothesis P6 : some_root i = true.
+
+  Lemma step_untrusted : k_verify (i_tok i) = false -> verify_authentic_timestamp i = Failed WVerify.
+  Proof.
+    intros H. rewrite unfold_vt. unfold countersig.
+    now rewrite P1, P2, P3, P4, (load_tsa_top _ W), P5, P6, H.
+  Qed.
+
+  Lemma step_mispurposed : k_verify (i_tok i) = true -> k_rules (i_tok i) = false ->
+    verify_authentic_timestamp i = Failed WRules.
+  Proof.
+    intros H1 H2. rewrite unfold_vt. unfold countersig.
+    now rewrite P1, P2, P3, P4, (load_tsa_top _ W), P5, P6, H1, H2.
+  Qed.
+
+  Hypothesis P7 : k_verify (i_tok i) = true.
+  Hypothesis P8 : k_rules (i_tok i) = true.
+
+  Lemma step_window : forall c, In c (i_chain i) ->
+    ~ Inside (k_gen (i_tok i) - k_acc (i_tok i)) (k_gen (i_tok i) + k_acc (i_tok i)) c ->
+    exists k, verify_authentic_timestamp i = Failed (WTsBefore k) \/
+              verify_authentic_timestamp i = Failed (WTsAfter k).
+  Proof.
+    intros c Hin NI. rewrite unfold_vt. unfold countersig.
+    rewrite P1, P2, P3, P4, (load_tsa_top _ W), P5, P6, P7, P8. cbn [negb].
+    pose proof (ts_loop_spec (k_gen (i_tok i) - k_acc (i_tok i)) (k_gen (i_tok i) + k_acc (i_tok i))
+                  (i_chain i) 0%N) as TS.
+    destruct (ts_loop _ _ (i_chain i) 0%N) as [w|].
+    - destruct TS as [_ (j & _ & [[-> _]|[-> _]])]; eexists; [left|right]; reflexivity.
+    - exfalso. apply NI. apply window_ok_iff.
+      rewrite forallb_forall in TS. now apply TS.
+  Qed.
+
+  Lemma step_revocation :
+    Forall (Inside (k_gen (i_tok i) - k_acc (i_tok i)) (k_gen (i_tok i) + k_acc (i_tok i))) (i_chain i) ->
+    rev_ok (k_rev (i_tok i)) = false ->
+    verify_authentic_timestamp i = Failed WRevErr \/
+    exists k, verify_authentic_timestamp i = Failed (WRevoked k) \/
+              verify_authentic_timestamp i = Failed (WRevUnknown k).
+  Proof.
+    intros FI NR. rewrite unfold_vt. unfold countersig.
+    rewrite P1, P2, P3, P4, (load_tsa_top _ W), P5, P6, P7, P8. cbn [negb].
+    pose proof (ts_loop_spec (k_gen (i_tok i) - k_acc (i_tok i)) (k_gen (i_tok i) + k_acc (i_tok i))
+                  (i_chain i) 0%N) as TS.
+    destruct (ts_loop _ _ (i_chain i) 0%N) as [w|].
+    - exfalso. destruct TS as [F _].
+      apply (forallb_Forall _ _ _ (window_ok_iff _ _)) in FI. congruence.
+    - pose proof (rev_check_spec (k_rev (i_tok i))) as RV.
+      destruct (rev_check (k_rev (i_tok i))) as [w|]; [|congruence].
+      destruct RV as [_ Hw]. destruct w; try contradiction;
+        [left; reflexivity | right; eexists; left; reflexivity | right; eexists; right; reflexivity].
+  Qed.
+End Steps.
+
+(* a revoked TSA certificate is reported as revoked *)
+Theorem revoked_reported : forall i rs, wf i = true -> i_scheme i = X509 ->
+  k_rev (i_tok i) = VRes rs -> In RRevoked rs ->
+  forall w, verify_authentic_timestamp i = Failed w ->
+  (forall k, w <> WRevUnknown k) /\ w <> WRevErr.
+Proof.
+  intros i rs W S R Hin w E. pose proof (vat_spec i W) as V. rewrite E in V. destruct V as [_ V].
+  split.
+  - intros k ->. unfold why_ok in V. rewrite S in V. rewrite !andb_true_iff in V.
+    destruct V as [[_ V1] V2]. rewrite R in V1, V2. unfold rres_at in V1, V2.
+    destruct (nth_error rs (N.to_nat k)) as [r|] eqn:N; [|discriminate].
+    (* the loop remembers a revoked certificate whenever there is one *)
+    exfalso. clear V1 V2 N r.
+    unfold verify_authentic_timestamp, verify_timestamp in E. rewrite S in E.
+    destruct (tsa_in_policy (i_stores i)) as [en|]; [|discriminate].
+    destruct (perform_ts _ _ _ en).
+    + unfold countersig in E.
+      repeat match type of E with
+             | (if ?b then _ else _) = _ => destruct b; try discriminate
+             | match ?x with _ => _ end = _ => destruct x eqn:?; try discriminate
+             end.
+      * inversion E; subst. match goal with H : ts_loop _ _ _ _ = Some _ |- _ =>
+          pose proof (ts_loop_spec (k_gen (i_tok i) - k_acc (i_tok i)) (k_gen (i_tok i) + k_acc (i_tok i)) (i_chain i) 0%N) as TS;
+          rewrite H in TS; destruct TS as [_ (j & _ & [[? _]|[? _]])]; discriminate end.
+      * inversion E; subst. rewrite R in *. unfold rev_check, final_result in *.
+        rewrite loop_is_fr, fr_revFound, index_from_revp in *.
+        assert (X : existsb is_revoked rs = true) by (apply existsb_exists; exists RRevoked; auto).
+        rewrite X in *.
+        match goal with H : match (if ?c then _ else _) with _ => _ end = _ |- _ => destruct c; discriminate end.
+    + pose proof (now_loop_spec (i_now i) (i_chain i) 0%N) as NL. rewrite E in NL.
+      destruct NL as [_ (j & _ & [[? _]|[? _]])]; discriminate.
+  - intros ->. unfold why_ok in V. rewrite S, R in V. now rewrite andb_false_r in V.
+Qed.
+
+(* ---- option unset = always; the irrelevant clock is ignored ---- *)
+Theorem unset_is_always : forall i, model (with_opt i OptUnset) = model (with_opt i OptAlways).
+Proof. reflexivity. Qed.
+
+Theorem x509_ignores_signing_time : forall i t, i_scheme i = X509 ->
+  verify_authentic_timestamp (with_sigtime i t) = verify_authentic_timestamp i.
+Proof.
+  intros i t S. unfold verify_authentic_timestamp. cbn [with_sigtime i_scheme]. rewrite S. reflexivity.
+Qed.
+
+Theorem sa_ignores_now_and_policy : forall i t stores o db k, i_scheme i = SigningAuthority ->
+  verify_authentic_timestamp (with_now (with_policy i stores o db k) t) = verify_authentic_timestamp i.
+Proof.
+  intros i t stores o db k S. unfold verify_authentic_timestamp.
+  cbn [with_now with_policy i_scheme]. rewrite S. reflexivity.
+Qed.
+
+Theorem expiry_ignores_signing_time : forall i t,
+  o_expiry (model (with_sigtime i t)) = o_expiry (model i).
+Proof. intros i t. now rewrite !o_expiry_model. Qed.
+
+(* ---- the reason reported is truthful; the action decides ---- *)
+Theorem reason_truthful : forall i w, wf i = true ->
+  verify_authentic_timestamp i = Failed w -> why_ok i w = true.
+Proof. intros i w W E. pose proof (vat_spec i W) as V. rewrite E in V. apply V. Qed.
+
+Theorem no_config_error : forall i, wf i = true -> verify_authentic_timestamp i <> Failed WConfig.
+Proof.
+  intros i W E. pose proof (reason_truthful i _ W E) as H. unfold why_ok in H.
+  destruct (i_scheme i); discriminate.
+Qed.
+
+Theorem rejected_iff : forall i,
+  o_rejected (model i) = true <->
+  (i_aexp i = Enforce /\ o_expiry (model i) = Some false) \/
+  (i_ats i = Enforce /\ exists w, o_ts (model i) = Some (Failed w)).
+Proof.
+  intros i. rewrite o_expiry_model. unfold model.
+  destruct (enforced (i_aexp i) && negb (verify_expiry (i_now i) (i_expiry i))) eqn:E;
+    cbn [o_rejected o_ts].
+  - apply andb_true_iff in E. destruct E as [E1 E2].
+    destruct (i_aexp i); [|discriminate].
+    destruct (verify_expiry (i_now i) (i_expiry i)); [discriminate|]. tauto.
+  - split.
+    + intros H. apply andb_true_iff in H. destruct H as [H1 H2]. right.
+      destruct (i_ats i); [|discriminate]. split; [reflexivity|].
+      destruct (verify_authentic_timestamp i) as [|w]; [discriminate|]. now exists w.
+    + intros [[A H]|[A (w & H)]].
+      * rewrite A in E. inversion H as [H']. rewrite H' in E. discriminate.
+      * inversion H as [H']. rewrite A, H'. reflexivity.
 Qed.
